@@ -37,7 +37,7 @@ REG = {
         "assumptions": ["the Lean model Model/Reader.lean mirrors _parser.py/_error.py/_dsdl_definition.py/_namespace_reader.py (validated by the text correspondence on every run)"],
     },
     "C05": {
-        "module": "Props.C05",
+        "module": ["Props.C05", "Props.C05Gen"],
         "suites": [("rules", (6000, 120000))],
         "rule": "a valid skeleton (message or service, structure or union, fields of every primitive/array/composite kind, constants, paddings, "
                 "dependencies sealed/deprecated/service of several sizes, vendor and standard root namespaces, fixed port-IDs, versions) with 0-3 "
